@@ -193,6 +193,11 @@ class Model():
                         f'Asset name {asset.name} is a duplicate'
                         ' and we do not allow duplicates.'
                     )
+        # The generated name may itself already be taken, extend it until it
+        # is unique
+        while asset.name in self.asset_names:
+            asset.name = asset.name + ':' + str(asset.id)
+
         # Reserve the id and the name only once the asset has been accepted
         self.asset_ids.add(asset.id)
         self.next_id = max(asset.id + 1, self.next_id)
